@@ -38,6 +38,26 @@ def run(m):
         b = subprocess.run(['go', 'build', './...'], cwd=d, env=ENV, capture_output=True, text=True)
         if b.returncode != 0:
             return (m, 'NOCOMPILE', b.stderr[-400:])
+        if FUZZ:
+            # the mutant refactored: K behaviour-preserving rewrites (tools/neutralfuzz) stacked on top of it; a
+            # rewrite that does not apply or does not build on this tree is skipped
+            import random, zlib
+            rnd = random.Random(zlib.crc32(m['name'].encode()) + FUZZSEED)
+            applied = []
+            for t in rnd.sample(TRANSFORMS, FUZZ):
+                for pk in ('./internal/wire', './cmd/wire'):
+                    bak = d + '.bak'
+                    shutil.rmtree(bak, ignore_errors=True)
+                    shutil.copytree(d, bak, symlinks=True)
+                    fz = subprocess.run(['/verif/bin/neutralfuzz', '-dir', d, '-pkg', pk, '-func', '*', '-t', t], env=ENV, capture_output=True, text=True)
+                    okb = fz.returncode == 0 and subprocess.run(['go', 'build', './...'], cwd=d, env=ENV, capture_output=True).returncode == 0
+                    if not okb:
+                        shutil.rmtree(d, ignore_errors=True)
+                        os.rename(bak, d)
+                    else:
+                        shutil.rmtree(bak, ignore_errors=True)
+                        applied.append(t)
+            m = dict(m, fuzz=sorted(set(applied)))
         ev = os.path.join(d, '.ev')
         r = subprocess.run(['/verif/bin/wirecheck', '-repo', d, '-property', m.get('property', 'all'), '-evidence', ev, '-known', '/verif/known_findings.json'],
                            env=ENV, capture_output=True, text=True)
@@ -52,18 +72,26 @@ def run(m):
     finally:
         shutil.rmtree(d, ignore_errors=True)
 
+FUZZ = 0
+FUZZSEED = 0
+TRANSFORMS = 'rename invert swapeq negform demorgan parens constextract hoistcond guard2else switch2if retlocal varform reorder splitinit mergeinit hoistarg ret2else splitand lencmp incr boolret predfunc rangeidx'.split()
+
 def main():
+    global FUZZ, FUZZSEED
     ap = argparse.ArgumentParser()
+    ap.add_argument('--fuzz', type=int, default=0, help='stack this many behaviour-preserving rewrites on every mutant before checking it')
+    ap.add_argument('--fuzzseed', type=int, default=0)
     ap.add_argument('-k', default='')
     ap.add_argument('-j', type=int, default=12)
     ap.add_argument('--json', default='')
     a = ap.parse_args()
+    FUZZ, FUZZSEED = a.fuzz, a.fuzzseed
     ms = [m for m in load() if a.k in m['name'] or a.k in m.get('property', '')]
     res = []
     with cf.ThreadPoolExecutor(a.j) as ex:
         for m, st, info in ex.map(run, ms):
             res.append({'name': m['name'], 'property': m.get('property'), 'expect': m.get('expect', ''), 'status': st, 'info': info})
-            print('%-11s %-6s %-44s %s' % (st, m.get('property', ''), m['name'], info.splitlines()[0][:150] if info else ''))
+            print('%-11s %-6s %-44s %s%s' % (st, m.get('property', ''), m['name'], info.splitlines()[0][:150] if info else '', (' [after ' + ','.join(m['fuzz']) + ']') if m.get('fuzz') else ''))
     bad = [r for r in res if r['status'] not in ('OK',)]
     print('%d mutants, %d ok, %d not ok' % (len(res), len(res) - len(bad), len(bad)))
     if a.json:
